@@ -148,9 +148,17 @@ def site_decisions(ctx, rep, clause):
         for inner, calls in blocks.values():
             site = _site_of(calls[0].func.attr)
             n_sites += 1
-            has_calls = {norm_stmt(x) for x in ast.walk(inner) if isinstance(x, ast.Call) and isinstance(x.func, ast.Attribute)
+            # the "already modified?" questions of this block: has_* calls inside it, and has_* calls that a local read
+            # inside it stands for (the question hoisted out of the loop)
+            scope = list(ast.walk(inner))
+            for y in list(scope):
+                if isinstance(y, ast.Name) and isinstance(y.ctx, ast.Load):
+                    v_ = c.single_value(y.id)
+                    if v_ is not None:
+                        scope += list(ast.walk(v_))
+            has_calls = {norm_stmt(x) for x in scope if isinstance(x, ast.Call) and isinstance(x.func, ast.Attribute)
                          and x.func.attr.startswith('has_') and _site_of(x.func.attr) == site}
-            asked = {_site_of(x.func.attr) for x in ast.walk(inner) if isinstance(x, ast.Call) and
+            asked = {_site_of(x.func.attr) for x in scope if isinstance(x, ast.Call) and
                      isinstance(x.func, ast.Attribute) and x.func.attr.startswith('has_') and
                      _site_of(x.func.attr) in ('internal', 'nterm', 'cterm')}
             ob(rep, 'SIB-mode', f.fq, f'{site} sites: "already modified?" is asked about the site that is edited',
@@ -159,7 +167,7 @@ def site_decisions(ctx, rep, clause):
                f'state of another site', f.loc(calls[0]), clause)
             if fname == 'apply_static_mods':
                 edited = {norm_stmt(x.func.value) for x in calls}
-                asked_obj = {norm_stmt(x.func.value) for x in ast.walk(inner) if isinstance(x, ast.Call) and
+                asked_obj = {norm_stmt(x.func.value) for x in scope if isinstance(x, ast.Call) and
                              isinstance(x.func, ast.Attribute) and x.func.attr.startswith('has_') and
                              _site_of(x.func.attr) == site}
                 ob(rep, 'SIB-mode', f.fq, f'{site} sites: the conflict test looks at the input, not at the copy being edited',
